@@ -42,6 +42,31 @@ def number_text(src, node):
     return seg
 
 
+def number_value(n):
+    """exact value of a pure-number sub-expression, None when it contains names (or divides by zero)"""
+    try:
+        if isinstance(n, ast.Constant) and isinstance(n.value, (int, float)) and not isinstance(n.value, bool):
+            return Fraction(n.value)
+        if isinstance(n, ast.UnaryOp) and isinstance(n.op, ast.USub):
+            v = number_value(n.operand)
+            return None if v is None else -v
+        if isinstance(n, ast.BinOp):
+            a, b = number_value(n.left), number_value(n.right)
+            if a is None or b is None:
+                return None
+            if isinstance(n.op, ast.Mult):
+                return a * b
+            if isinstance(n.op, ast.Div):
+                return a / b
+            if isinstance(n.op, ast.Pow):
+                if b.denominator != 1 or abs(b) > 64:
+                    raise Untranslatable('exponent')
+                return a ** int(b)
+    except ZeroDivisionError:
+        return None
+    return None
+
+
 def expr_term(src, allow_float=True, allow_exponent=True):
     """Unit string -> Gallina term of type Model.expr.  The keyword `as` (attoseconds) cannot be parsed
     by Python before the code's own `as` -> `as_` substitution; it is parsed through a placeholder and
@@ -71,6 +96,10 @@ def expr_term(src, allow_float=True, allow_exponent=True):
             op = {ast.Mult: 'EMul', ast.Div: 'EDiv', ast.Pow: 'EPow'}.get(type(n.op))
             if op is None:
                 raise Untranslatable('operator %s' % type(n.op).__name__)
+            if op == 'EPow' and not allow_float:
+                v = number_value(n.right)
+                if v is not None and v.denominator != 1:
+                    raise Untranslatable('non-integral exponent outside the model grammar')
             return '(%s %s %s)' % (op, go(n.left), go(n.right))
         if isinstance(n, ast.UnaryOp) and isinstance(n.op, ast.USub):
             return '(ENeg %s)' % go(n.operand)
